@@ -2669,3 +2669,234 @@ def t_size_sum(facts, res, tier):
                 res.fail("T-SIZE-SUM:%s:%s" % (fn["name"], tgt), facts.where(fn, node), "%s: `%s` saturates when the size of an asm statement is added, and is then updated with a plain `%s=`: that addition overflows once the count has saturated" % (fn["name"], tgt, node["op"]))
     if n == 0:
         raise AnchorMissing("assemble.rs: no sum involving the size of an Inline line")
+
+
+@rule("T-CLASS-KEPT", floor=8,
+      text="the memory class of a variable (`memory`) is what decides whether its reads and writes use separate ports.  In the declaration code of "
+           "compile.rs it is assigned either where a class keyword of the declaration is read (an arm `Rule::<keyword>` of the dispatch on the "
+           "declaration's parts) or as a function of its current value: under a test of `memory` (`memory == ..`, an arm of `match memory`), or "
+           "with a right-hand side that is itself `match memory {..}`.  An assignment that looks at the type or the address only replaces the "
+           "class the declaration gave: `superchip char *const buf = 0x1000` becomes plain RAM and is read through its write port")
+def t_class_kept(facts, res, tier):
+    from scopes import scoped
+    n = 0
+    for fn in facts.fns:
+        if not fn["file"].endswith("/compile.rs") or fn.get("test"):
+            continue
+        for node, env, doms in scoped(fn):
+            if not (node.get("k") == "assign" and expr_text(node["l"]).replace(" ", "") == "memory"):
+                continue
+            n += 1
+            rhs = expr_text(node["r"]).replace(" ", "")
+            conds = [expr_text(d[1]).replace(" ", "") for d in doms if d[0] == "cond" and d[2]]
+            arms = [(expr_text(d[1]).replace(" ", ""), pat_text(d[2]).replace(" ", "")) for d in doms if d[0] == "arm"]
+            how = None
+            if rhs.startswith("matchmemory{"):
+                how = "function of the current class"
+            elif any(re.search(r"\bmemory(==|!=)|matches!\(memory", c) for c in conds) or any(sc.lstrip("&") == "memory" for sc, pt in arms):
+                how = "under a test of the current class"
+            elif arms and arms[-1][0].endswith(".as_rule()") and re.fullmatch(r"Rule::\w+", arms[-1][1]) and arms[-1][1] != "Rule::var_def" and rhs.startswith("VariableMemory::"):
+                # the innermost arm is the keyword itself, and nothing but the keyword decides (no condition inside the arm)
+                inner_conds = [d for d in doms if d[0] == "cond"]
+                last_arm_pos = max(i for i, d in enumerate(doms) if d[0] == "arm")
+                if not any(i > last_arm_pos for i, d in enumerate(doms) if d[0] == "cond"):
+                    how = "keyword %s" % arms[-1][1]
+            key = "T-CLASS-KEPT:%s:%s" % (fn["name"], rhs[:40])
+            res.inst(key, True, {"function": fn["name"], "assigns": rhs[:50], "admitted_as": how})
+            if how is None:
+                res.fail(key, facts.where(fn, node), "%s assigns `memory = %s` under `%s` without looking at the class the declaration gave: a `superchip` / `bankN` / `display` variable silently changes class there" % (fn["name"], rhs[:40], " && ".join(conds[-3:]) or "no condition"))
+    if n == 0:
+        raise AnchorMissing("compile.rs: no assignment to `memory`")
+
+
+@rule("T-UNARY-CONST", floor=2,
+      text="generate_neg and generate_bnot fold a literal operand themselves (`Expr::Integer(i) => Immediate(-i)` / `Immediate(!i)`) and hand any "
+           "other operand to generate_arithm together with a constant (`0 - e`, `e ^ 0xff`).  generate_arithm folds two constants at full width, so "
+           "for an operand that turns out to be constant (`~(1+2)`, `~K`) the second route must give what the first gives: either the operation "
+           "and constant handed over are the unary operator at full width (`0 - v`; `v ^ -1`), or the constant result is intercepted first "
+           "(`if let ExprType::Immediate(i) = operand { return Ok(Immediate(<the literal arm's expression>)) }`).  `x = ~(1+2)` into a short "
+           "otherwise stores 0x00FC where `x = ~3` stores 0xFFFC")
+def t_unary_const(facts, res, tier):
+    n = 0
+    for name, kind in (("generate_neg", "neg"), ("generate_bnot", "not")):
+        fn = facts.fn(name, genmodel.GEN_QUAL)
+        m = next((x for x in walk(fn["body"]) if x.get("k") == "match" and any(pat_text(a["pat"]).replace(" ", "").startswith("Expr::Integer(") for a in x["arms"])), None)
+        if m is None:
+            raise AnchorMissing("%s: no Expr::Integer arm" % name)
+        lit = next(a for a in m["arms"] if pat_text(a["pat"]).replace(" ", "").startswith("Expr::Integer("))
+        lit_var = scopes_pat_names(lit["pat"])[0]
+        lit_txt = expr_text(lit["body"]).replace(" ", "")
+        norm = lambda t, v: re.sub(r"\(?\*?\b%s\b\)?" % re.escape(v), "V", t)
+        lit_core = re.search(r"!V|V\.checked_neg\(\)|-V", norm(lit_txt, lit_var))
+        gen = next(a for a in m["arms"] if a is not lit)
+        consts = {}
+        for x in walk(gen["body"]):
+            if x.get("k") == "let" and x.get("pat", {}).get("k") == "ident" and x.get("init") is not None:
+                t = expr_text(x["init"]).replace(" ", "")
+                mm = re.fullmatch(r"ExprType::Immediate\((-?\w+)\)", t)
+                if mm:
+                    try:
+                        consts[x["pat"]["name"]] = int(mm.group(1), 0)
+                    except ValueError:
+                        pass
+        calls = [x for x in walk(gen["body"]) if _self_call(x, ("generate_arithm",)) and len(x.get("args", [])) >= 3]
+        if not calls:
+            raise AnchorMissing("%s: no generate_arithm call in the general arm" % name)
+        for c in calls:
+            n += 1
+            a0 = expr_text(c["args"][0]).replace(" ", "").lstrip("&")
+            op = expr_text(c["args"][1]).replace(" ", "").lstrip("&")
+            a2 = expr_text(c["args"][2]).replace(" ", "").lstrip("&")
+            full = False
+            if kind == "neg":
+                full = op.startswith("Operation::Sub(") and consts.get(a0) == 0
+                operand = a2
+            else:
+                cst, operand = (consts.get(a2), a0) if a2 in consts else (consts.get(a0), a2)
+                full = op.startswith("Operation::Xor(") and cst == -1
+            intercepted = False
+            for x in walk(gen["body"]):
+                if x.get("k") == "if" and x["cond"].get("k") == "letcond" and pat_text(x["cond"]["pat"]).replace(" ", "").startswith("ExprType::Immediate(") \
+                        and expr_text(x["cond"]["e"]).replace(" ", "").lstrip("&") == operand:
+                    v = scopes_pat_names(x["cond"]["pat"])
+                    rets = [r for r in walk(x["then"]) if r.get("k") == "return"]
+                    if v and rets:
+                        rt = norm(expr_text(rets[0].get("e") or {}).replace(" ", ""), v[0])
+                        if lit_core and lit_core.group(0) in rt and "ExprType::Immediate(" in rt:
+                            intercepted = True
+            key = "T-UNARY-CONST:%s" % name
+            res.inst(key, True, {"function": name, "hands_over": "%s %s %s" % (a0, op, a2), "full_width_by_itself": full, "constant_operand_intercepted": intercepted})
+            if not (full or intercepted):
+                res.fail(key, facts.where(fn, c), "%s folds a literal as `%s` but sends any other constant operand through generate_arithm(%s, %s, %s), which folds to another value for operands wider than a byte, and does not intercept a constant operand first" % (name, lit_txt[:40], a0, op, a2))
+    if n == 0:
+        raise AnchorMissing("no unary generator found")
+
+
+@rule("T-POS-SUBSTMT", floor=3,
+      text="when a generator function handles a sub-statement it received itself instead of handing it to generate_statement (the arms that matched "
+           "`<stmt>.statement` against a kind: generate_if's one-branch form of `if (c) break;`), the errors it raises in its place are located at "
+           "that statement (`<stmt>.pos`), not at the enclosing construct (`pos`): `if (x)` / newline / `break;` outside a loop is otherwise reported "
+           "on the line of the if")
+def t_pos_substmt(facts, res, tier):
+    gen = {f["name"]: f for f in genmodel.gen_fns(facts)}
+    n = 0
+    for name, fn in sorted(gen.items()):
+        ps = [p["name"] for p in fn.get("params", []) if "StatementLoc" in p.get("ty", "") and "Vec" not in p.get("ty", "")]
+        if not ps or name == "generate_statement":
+            continue
+        for m in walk(fn["body"]):
+            if m.get("k") != "match":
+                continue
+            sc = expr_text(m["e"]).replace(" ", "").lstrip("&")
+            P = next((p for p in ps if sc == p + ".statement"), None)
+            if P is None:
+                continue
+            for a in m["arms"]:
+                pt = pat_text(a["pat"]).replace(" ", "")
+                if not pt.startswith("Statement::"):
+                    continue
+                if any(_self_call(x, ("generate_statement",)) and any(_mentions(y, P) for y in x.get("args", [])) for x in walk(a["body"])):
+                    continue
+                errs = [x for x in walk(a["body"]) if x.get("k") == "mcall" and x["method"] in ("syntax_error", "compiler_error") and len(x.get("args", [])) >= 2]
+                for x in errs:
+                    n += 1
+                    key = "T-POS-SUBSTMT:%s:%s" % (name, pt[:30])
+                    at = expr_text(x["args"][1]).replace(" ", "")
+                    res.inst(key, True, {"function": name, "arm": pt[:30], "error_at": at})
+                    if at != P + ".pos":
+                        res.fail(key, facts.where(fn, x), "%s handles `%s` in place of generate_statement (arm %s) and reports its error `%s` at `%s`, not at `%s.pos`" % (name, P, pt[:30], expr_text(x["args"][0])[:40], at, P))
+    if n == 0:
+        raise AnchorMissing("no generator arm handling a sub-statement in place with an error of its own")
+
+
+INPUT_IO = {"read_line", "read_until", "read_to_string", "read_to_end", "read", "lines"}
+
+
+@rule("T-IO-LOCATED", floor=3,
+      text="a failure to read the program - the source itself, an included file that is a directory, not valid UTF-8, not readable - is a defect of "
+           "the program at a known place.  In the preprocessor (cpp.rs) no `?` is applied directly to the result of an input operation (read_line, "
+           "File::open, ..): the io::Error is first turned into a located error (`.map_err(..)` building an Error::Syntax with filename, line and "
+           "included_in).  `?` alone converts it with From<io::Error> into Error::Io, which has no file, no line and no including file.  (Writes to "
+           "the output are not errors of the source and are not judged.)")
+def t_io_located(facts, res, tier):
+    n = 0
+    for fn in facts.fns:
+        if not fn["file"].endswith("/cpp.rs") or fn.get("test"):
+            continue
+        for x in walk(fn["body"]):
+            if x.get("k") != "try":
+                continue
+            e = x["e"]
+            chain = []
+            while isinstance(e, dict) and e.get("k") == "mcall":
+                chain.append(e)
+                e = e["recv"]
+            base_is_open = isinstance(e, dict) and e.get("k") == "call" and expr_text(e["func"]).replace(" ", "").endswith("File::open")
+            reads = [c for c in chain if c["method"] in INPUT_IO]
+            if not (reads or base_is_open):
+                continue
+            n += 1
+            what = "File::open" if base_is_open else reads[-1]["method"]
+            key = "T-IO-LOCATED:%s:%s" % (fn["name"], what)
+            mapped = [c for c in chain if c["method"] == "map_err"]
+            located = False
+            for c in mapped:
+                t = expr_text(c["args"][0]).replace(" ", "") if c["args"] else ""
+                # the closure builds the located error itself, or calls a local closure that does
+                names = [y["segs"][0] for y in walk(c["args"][0]) if y.get("k") == "path" and len(y["segs"]) == 1] if c["args"] else []
+                bodies = [t]
+                for l in walk(fn["body"]):
+                    if l.get("k") == "let" and l.get("pat", {}).get("k") == "ident" and l["pat"]["name"] in names and l.get("init", {}).get("k") == "closure":
+                        bodies.append(expr_text(l["init"]).replace(" ", ""))
+                if any(("Error::Syntax{" in b or "Error::Compiler{" in b) for b in bodies) or any(_struct_has(l, ("filename", "line", "included_in")) for l in ([c["args"][0]] if c["args"] else []) + [l2.get("init") for l2 in walk(fn["body"]) if l2.get("k") == "let" and l2.get("pat", {}).get("k") == "ident" and l2["pat"]["name"] in names and l2.get("init")]):
+                    located = True
+            res.inst(key, True, {"function": fn["name"], "operation": what, "located": located})
+            if not located:
+                res.fail(key, facts.where(fn, x), "%s applies `?` to the result of %s without turning the io::Error into a located error: a source that cannot be read is reported with no file, line or including file" % (fn["name"], what))
+    if n == 0:
+        raise AnchorMissing("cpp.rs: no input operation under `?`")
+
+
+def _struct_has(node, fields):
+    for y in walk(node):
+        if y.get("k") == "struct" and (y.get("segs") or [""])[0] == "Error":
+            names = {f.get("name") for f in y.get("fields", [])}
+            if all(f in names for f in fields):
+                return True
+    return False
+
+
+@rule("T-CPP-WORD-SPLIT", floor=5,
+      text="process() recognises a directive by the first word of the line, cut at any white space (`substr.split(char::is_whitespace).next()`).  Every "
+           "place that then separates that word from its operand (`<line>.splitn(2, SEP)`) cuts at the same class of characters: with a narrower "
+           "separator (a blank only) `#define<TAB>N 3` is recognised as a #define whose operand is missing, `#if<TAB>N` as an unknown directive")
+def t_cpp_word_split(facts, res, tier):
+    fn = facts.fn("process", "")
+    word = None
+    for x in walk(fn["body"]):
+        if x.get("k") == "let" and x.get("pat", {}).get("k") == "ident" and x["pat"]["name"] == "directive" and x.get("init") is not None:
+            for y in walk(x["init"]):
+                if y.get("k") == "mcall" and y["method"] in ("split", "splitn") and y["args"]:
+                    word = expr_text(y["args"][-1]).replace(" ", "")
+                elif y.get("k") == "mcall" and y["method"] == "split_whitespace":
+                    word = "char::is_whitespace"
+    if word is None:
+        raise AnchorMissing("process(): the binding of `directive` (first word of the line) not found")
+    n = 0
+    for x in walk(fn["body"]):
+        if not (x.get("k") == "mcall" and x["method"] == "splitn" and len(x["args"]) == 2):
+            continue
+        r = x["recv"]
+        root = r
+        while isinstance(root, dict) and root.get("k") in ("mcall", "try", "paren"):
+            root = root.get("recv") if root.get("k") == "mcall" else root.get("e")
+        if not (isinstance(root, dict) and root.get("k") == "path" and root["segs"] == ["substr"]):
+            continue
+        n += 1
+        sep = expr_text(x["args"][1]).replace(" ", "")
+        key = "T-CPP-WORD-SPLIT:process:%d" % n
+        res.inst(key, True, {"where": facts.where(fn, x), "separator": sep, "word_separator": word})
+        if sep != word:
+            res.fail("T-CPP-WORD-SPLIT:process:separator", facts.where(fn, x), "process() finds the directive word with `%s` and cuts its operand off with `%s`: a line whose name is followed by another white-space character is recognised and then found to have no operand (or no known name)" % (word, sep))
+    if n == 0:
+        raise AnchorMissing("process(): no splitn(2, ..) of a directive line")
